@@ -3,6 +3,7 @@ package rules
 import (
 	"go/token"
 	"go/types"
+	"math"
 
 	"conduitlint/kit"
 
@@ -11,8 +12,8 @@ import (
 
 func init() {
 	register(&Property{
-		ID:  "C07",
-		Run: runC07,
+		ID:          "C07",
+		Run:         runC07,
 		Explanation: "Decides the structural clauses of 'DLQ exactly once or stop': (R8 = C01.R8) the source ack of a nacked record is dominated by the DLQ write's success edge and covers exactly the stored prefix; (R2) the v1 DLQ handler latches itself broken whenever building or writing the DLQ record fails (the deferred latch reads the very variable those errors are assigned to) and serves acks/nacks only while running; (R3) status handlers of a message run inside the once-guard only; (R4) in both engines a nack the window refuses is returned as a fatal error when the DLQ is enabled (threshold>0), a v2 DLQ write failure is fatal, and the window is consulted under the DLQ mutex before any write; (R5) both DLQ record builders carry the original record, the nack error and the failing component; (R6) DLQ settings are range-checked before they are stored.",
 		NotDecided:  []string{"the ring-buffer arithmetic of dlqWindow and v1/v2 decision parity over outcome sequences (run-time values)", "source order of DLQ writes beyond C04", "a nil nack reason supplied by in-process callers (the plugin boundary is covered by C09.R7)"},
 		Assumptions: []string{"sync.Once runs its function at most once"},
@@ -222,12 +223,7 @@ func c07R4(c *Ctx) {
 			c.Dominated(r, "v1 DLQHandlerNode.Nack: DLQ write only when the window accepted the nack", asInstrs(kit.CallsTo(fn, write)), kit.NewGates().AddEdges(kit.CondEdges(wc.Value(), true), ""), "the window.Nack()==true edge")
 			// refused ∧ threshold>0 ⇒ every return is FatalError(...)
 			for _, refused := range kit.CondEdges(wc.Value(), false) {
-				thrEdges := kit.CmpEdges(fn, func(b *ssa.BinOp) (bool, bool) {
-					if kit.IsFieldLoad(b.X, thrF) && kit.IsIntConst(b.Y, 0) && b.Op == token.GTR {
-						return true, true
-					}
-					return false, false
-				})
+				thrEdges := kit.IntRangeEdges(fn, func(x ssa.Value) bool { return kit.IsFieldLoad(x, thrF) }, 1, math.MaxInt64)
 				c.R.Check(len(thrEdges) > 0, r, "v1 DLQHandlerNode.Nack: threshold test on the refused path", c.Pos(fn.Pos()), "ok", "no WindowNackThreshold > 0 test on the refused path", true)
 				for _, te := range thrEdges {
 					if !kit.EdgeReaches(refused, te.From.Instrs[len(te.From.Instrs)-1], nil) && refused.To != te.From {
@@ -281,12 +277,7 @@ func c07R4(c *Ctx) {
 			// sendToDLQ gets at most the accepted prefix: dominated by nacked > 0
 		}
 		// threshold>0 on the partially refused path ⇒ fatal
-		thrEdges := kit.CmpEdges(fn, func(b *ssa.BinOp) (bool, bool) {
-			if kit.IsFieldLoad(b.X, thrF) && kit.IsIntConst(b.Y, 0) && b.Op == token.GTR {
-				return true, true
-			}
-			return false, false
-		})
+		thrEdges := kit.IntRangeEdges(fn, func(x ssa.Value) bool { return kit.IsFieldLoad(x, thrF) }, 1, math.MaxInt64)
 		c.R.Check(len(thrEdges) > 0, r, "v2 DLQ.Nack: threshold test", c.Pos(fn.Pos()), "ok", "no windowNackThreshold > 0 test", true)
 		for _, te := range thrEdges {
 			okAll := true
@@ -358,17 +349,7 @@ func c07R6(c *Ctx) {
 		return f != nil && f.Name() == name
 	}
 	for _, name := range []string{"WindowSize", "WindowNackThreshold"} {
-		g := kit.NewGates().AddEdges(kit.CmpEdges(fn, func(b *ssa.BinOp) (bool, bool) {
-			if field(b.X, name) && kit.IsIntConst(b.Y, 0) {
-				switch b.Op {
-				case token.LSS:
-					return true, false
-				case token.GEQ:
-					return true, true
-				}
-			}
-			return false, false
-		}), name+" >= 0")
+		g := kit.NewGates().AddEdges(kit.IntRangeEdges(fn, func(x ssa.Value) bool { return field(x, name) }, 0, math.MaxInt64), name+" >= 0")
 		c.Dominated(r, "UpdateDLQ: negative "+name+" refused before storing", stores, g, "the "+name+" >= 0 edge")
 	}
 	g := kit.NewGates().AddEdges(kit.CmpEdges(fn, func(b *ssa.BinOp) (bool, bool) {
@@ -382,17 +363,7 @@ func c07R6(c *Ctx) {
 		}
 		return false, false
 	}), "WindowSize > WindowNackThreshold")
-	g.AddEdges(kit.CmpEdges(fn, func(b *ssa.BinOp) (bool, bool) {
-		if field(b.X, "WindowSize") && kit.IsIntConst(b.Y, 0) {
-			switch b.Op {
-			case token.GTR:
-				return true, false
-			case token.LEQ, token.EQL:
-				return true, true
-			}
-		}
-		return false, false
-	}), "WindowSize == 0 (window disabled)")
+	g.AddEdges(kit.IntRangeEdges(fn, func(x ssa.Value) bool { return field(x, "WindowSize") }, math.MinInt64, 0), "WindowSize == 0 (window disabled)")
 	c.Dominated(r, "UpdateDLQ: threshold must be lower than a non-zero window", stores, g, "WindowSize > WindowNackThreshold (or WindowSize == 0)")
 	_ = types.Typ
 }
